@@ -220,7 +220,7 @@ func (sm *Subscriptions) gcWhenBinding(binding *WhenBinding, gcCtx bool) {
 
 		// delete state index
 		names = append(names, state)
-		if len(sm.when[state]) == 1 {
+		if len(sm.when[state]) == 1 && sm.when[state][0] == binding {
 			delete(sm.when, state)
 			continue
 		}
@@ -326,7 +326,7 @@ func (sm *Subscriptions) gcWhenTimeBinding(
 
 		// remove state index
 		names = append(names, state)
-		if len(sm.whenTime[state]) == 1 {
+		if len(sm.whenTime[state]) == 1 && sm.whenTime[state][0] == binding {
 			delete(sm.whenTime, state)
 			continue
 		}
@@ -623,10 +623,10 @@ func (sm *Subscriptions) When(states S, ctx context.Context) <-chan struct{} {
 	// insert the binding
 	for _, s := range states {
 		sm.when[s] = append(sm.when[s], binding)
-
-		if ctx != nil {
-			sm.whenCtx[ctx] = append(sm.whenCtx[ctx], binding)
-		}
+	}
+	// once per binding, not per state
+	if ctx != nil {
+		sm.whenCtx[ctx] = append(sm.whenCtx[ctx], binding)
 	}
 
 	return ch
